@@ -10,7 +10,7 @@ from ._wcommon import (ASSUMPTIONS, COMPONENTS_REAL, COMPONENTS_STUB, Hist, Viol
 from ._wcommon import abstract_states  # noqa: F401,E402
 
 ID = "C10"
-RUNS = {"quick": 8000, "thorough": 250000}
+RUNS = {"quick": 10000, "thorough": 250000}
 BUDGET_S = {"quick": 60, "thorough": 900}
 RULE = ("seeded middleware stacks (0..3 recording middlewares, random subset of the six hooks overridden, sync or async with "
         "suspension, message-replacing pre_send/pre_execute adding a chain label), all task outcomes, failing kick(), failing "
